@@ -1539,11 +1539,8 @@ func rres(path []ssa.Instruction, ret *ssa.Return) []ssa.Value {
 	}
 	out := make([]ssa.Value, len(ret.Results))
 	for i, v := range ret.Results {
-		r := rvI(v, idx)
-		if r != v {
-			r = valueOnPath(r, path)
-		}
-		out[i] = r
+		// resolved through walked-through helpers, then through the phis this path fixes
+		out[i] = valueOnPath(rvI(v, idx), path)
 	}
 	return out
 }
